@@ -20,6 +20,7 @@ Inductive ex :=
 | XIdx                        (* stream.index *)
 | XAdd (a b : ex)
 | XSub (a b : ex)
+| XMul (a b : ex)
 | XMod (a b : ex)
 | XAnd (a b : ex)             (* bitwise & *)
 | XPeek2.                     (* get_value(stream.data, stream.index, 2): the next two bytes, unchecked (short at the end of the data) *)
@@ -83,6 +84,7 @@ Fixpoint ev (e : ex) (s : sst) : option Z :=
   | XIdx => Some (s_idx s)
   | XAdd a b => match ev a s, ev b s with Some x, Some y => Some (x + y) | _, _ => None end
   | XSub a b => match ev a s, ev b s with Some x, Some y => Some (x - y) | _, _ => None end
+  | XMul a b => match ev a s, ev b s with Some x, Some y => Some (x * y) | _, _ => None end
   | XAnd a b => match ev a s, ev b s with Some x, Some y => Some (Z.land x y) | _, _ => None end
   | XPeek2 => Some (Z.of_N (be_val (firstn 2 (s_rest s)) 0))
   | XMod a b => match ev a s, ev b s with
@@ -230,7 +232,7 @@ Definition init (d : bytes) : sst := mkS d 0 [] [].
 Fixpoint uses_idx_e (e : ex) : bool :=
   match e with
   | XIdx => true
-  | XAdd a b | XSub a b | XMod a b | XAnd a b => uses_idx_e a || uses_idx_e b
+  | XAdd a b | XSub a b | XMul a b | XMod a b | XAnd a b => uses_idx_e a || uses_idx_e b
   | _ => false
   end.
 Fixpoint uses_idx_c (c : cd) : bool :=
